@@ -1,4 +1,6 @@
 pub mod c02;
 pub mod c04;
 pub mod c07;
+pub mod c17;
+pub mod closure;
 pub mod sessions;
